@@ -93,7 +93,7 @@ def add_grouper(obj, grouper):
     raise KeyError(grouper)
 
 
-def compare(res, case, tags, got, want, size, original=None, reduced_dim="x"):
+def compare(res, case, tags, got, want, size, original=None, reduced_dims=("x",)):
     import xarray as xr
 
     probs = []
@@ -101,10 +101,10 @@ def compare(res, case, tags, got, want, size, original=None, reduced_dim="x"):
         if isinstance(want, xr.Dataset):
             if set(got.data_vars) != set(want.data_vars):
                 probs.append(f"variables {sorted(got.data_vars)} != {sorted(want.data_vars)}")
-            pairs = [(k, got[k], want[k]) for k in want.data_vars if k in got.data_vars and (original is None or reduced_dim in original[k].dims)]
+            pairs = [(k, got[k], want[k]) for k in want.data_vars if k in got.data_vars and (original is None or any(d in original[k].dims for d in reduced_dims))]
             # variables lacking the reduced dimension pass through unchanged (the property's own clause; native xarray reduces them)
             for k in want.data_vars:
-                if k in got.data_vars and original is not None and reduced_dim not in original[k].dims:
+                if k in got.data_vars and original is not None and not any(d in original[k].dims for d in reduced_dims):
                     g, o = got[k], original[k]
                     try:
                         same = np.array_equal(np.broadcast_to(np.asarray(o.values), np.asarray(g.transpose(..., *o.dims).values).shape),
@@ -153,7 +153,7 @@ def compare(res, case, tags, got, want, size, original=None, reduced_dim="x"):
     return True
 
 
-def native(obj, by, func, skipna, min_count, keep_attrs):
+def native(obj, by, func, skipna, min_count, keep_attrs, dim=None):
     import xarray as xr
 
     kw = {}
@@ -166,23 +166,27 @@ def native(obj, by, func, skipna, min_count, keep_attrs):
     with xr.set_options(use_flox=False), warnings.catch_warnings():
         warnings.simplefilter("ignore")
         gb = obj.groupby(by)
+        if dim is not None:
+            kw["dim"] = dim
         return getattr(gb, func)(keep_attrs=keep_attrs, **kw)
 
 
-def run_one(res, obj, by, func, skipna, min_count, keep_attrs, case, tags, size):
+def run_one(res, obj, by, func, skipna, min_count, keep_attrs, case, tags, size, dim=None):
     from flox.xarray import xarray_reduce
 
     res.evaluations += 1
     res.states += 1
     res.transitions += 2
     try:
-        want = native(obj, by, func, skipna, min_count, keep_attrs)
+        want = native(obj, by, func, skipna, min_count, keep_attrs, dim=dim)
         if hasattr(want, "compute"):
             want = want.compute()
     except Exception as e:
         res.outcomes[f"native-refuses:{type(e).__name__}"] += 1
         return
     kw = dict(func=func, skipna=skipna, keep_attrs=keep_attrs)
+    if dim is not None:
+        kw["dim"] = dim
     if min_count is not None:
         kw["min_count"] = min_count
     try:
@@ -199,7 +203,8 @@ def run_one(res, obj, by, func, skipna, min_count, keep_attrs, case, tags, size)
         res.violate("xarray-error", case, dict(exc=type(e).__name__, msg=str(e)[:200]), "a result like native xarray's", tags=dict(tags, kind="error", exc=type(e).__name__), size=size)
         return
     res.compared += 1
-    compare(res, case, tags, got, want, size, original=obj if case.get("leg") == "dataset" else None)
+    compare(res, case, tags, got, want, size, original=obj if case.get("leg") == "dataset" else None,
+            reduced_dims=("x", "y") if case.get("grouper") == "coord2d" else ("x",))
 
 
 def run_shard(shard):
@@ -225,13 +230,29 @@ def run_shard(shard):
                             tags = dict(leg2="dataarray", grouper=grouper, func=func, skipna=str(skipna), chunked=chunked, ndim=len(dims))
                             run_one(res, obj, by, func, skipna, min_count, keep_attrs, case, tags, len(dims) * 10)
                             res.nontrivial += 1 if nontriv else 0
+                    # explicit `dim`: the grouped dim, a dim along which the groups do not vary (plain-reduction shortcut),
+                    # both, and Ellipsis
+                    if func in ("sum", "mean", "max", "count") and skipna in (None, False):
+                        gdims = ("x", "y") if grouper == "coord2d" else ("x",)
+                        others = [d for d in dims if d not in gdims]
+                        variants = [gdims[0] if len(gdims) == 1 else gdims, ...]
+                        if others:
+                            variants += [others[0], tuple(gdims) + (others[0],)]
+                        for dim in variants:
+                            dname = "..." if dim is ... else (list(dim) if isinstance(dim, tuple) else dim)
+                            case = dict(leg="dataarray", dims=list(dims), grouper=grouper, func=func, skipna=skipna, min_count=None,
+                                        keep_attrs=True, chunked=chunked, dim=dname)
+                            tags = dict(leg2="dataarray-dim", grouper=grouper, func=func, skipna=str(skipna), chunked=chunked, ndim=len(dims),
+                                        dim_kind="ellipsis" if dim is ... else ("grouped" if dim == variants[0] else ("other" if dim == others[0] else "both")))
+                            run_one(res, obj, by, func, skipna, None, True, case, tags, len(dims) * 10 + 1, dim=dim)
+                            res.nontrivial += 1
         res.sample(dict(leg="dataarray", dims=list(dims), grouper=grouper, funcs=FUNCS, skipna=[None, True, False], chunked=[False, True]))
     else:
         for chunked in (False, True):
             a = make_da(("x", "y"), chunked)
             ds = xr.Dataset(dict(a=a.rename("a"), b=make_da(("x",), False).rename("b"), c=xr.DataArray(np.array([1.0, 2.0]), dims="y", attrs=dict(k="c")),
                                  d=xr.DataArray(np.array([5.0, NAN]), dims="t")), attrs=dict(title="ds"))
-            for grouper in ("coord1d", "coord1d_nan", "ext"):
+            for grouper in ("coord1d", "coord1d_nan", "ext", "coord2d"):
                 obj, by = add_grouper(ds, grouper)
                 for func in ("sum", "mean", "count", "max", "var", "first"):
                     for skipna in (None, False) if func not in ("count",) else (None,):
@@ -252,7 +273,9 @@ def replay(payload):
     if c["leg"] == "dataarray":
         base = make_da(tuple(c["dims"]), c["chunked"], boolean=c["func"] in ("any", "all"))
         obj, by = add_grouper(base, c["grouper"])
-        run_one(res, obj, by, c["func"], c["skipna"], c.get("min_count"), c["keep_attrs"], c, dict(kind="replay"), 10)
+        dim = c.get("dim")
+        dim = ... if dim == "..." else (tuple(dim) if isinstance(dim, list) else dim)
+        run_one(res, obj, by, c["func"], c["skipna"], c.get("min_count"), c["keep_attrs"], c, dict(kind="replay"), 10, dim=dim)
     else:
         return run_shard(dict(leg="dataset", tier="quick"))
     return res
